@@ -676,6 +676,24 @@ class Spectrum:
             # single precision values are summed in double precision
             value = value.astype(float)
 
+        # a bound that falls between two samples cuts the interval it falls
+        # in: the (linearly interpolated) end point is part of the integrand
+        if self.wave.size > 1 and end > start:
+            lo, hi = max(start, np.min(self.wave)), min(end, np.max(self.wave))
+            if hi > lo:
+                if wave.size == 0 or lo < wave[0]:
+                    wave = np.concatenate(([lo], wave))
+                    value = np.concatenate(([np.interp(lo, self.wave, self.value)], value))
+                if hi > wave[-1]:
+                    wave = np.concatenate((wave, [hi]))
+                    value = np.concatenate((value, [np.interp(hi, self.wave, self.value)]))
+
+        if wave.size < 2:
+            # no interval inside the bounds: nothing to integrate
+            if method not in ('simps', 'trapz'):
+                raise ValueError('Unknown method ', method)
+            return 0.0
+
         if method == 'simps':
             result = scipy.integrate.simpson(x=wave, y=value)
         elif method == 'trapz':
